@@ -8,15 +8,18 @@
   by '+' — spelled as lexer items with any run of separators before any token, the result is exactly that
   tree: keywords, arguments, keyword positions, source order and nesting; the fuel `parse` supplies always
   suffices); separators are invisible to the parser (`C10_sep_blind`); the lexer's stream always ends
-  properly (C07); the argument decoding lemmas of C08 (double-quoted pieces).  Not proved: that the lexer
-  turns every spelling into those items (comments produce no item, blanks one separator item) — held by
-  stream ytree (random trees ×
-  layouts with comments / blanks / line breaks at every token boundary × quotings, the real parser's tree
-  walk compared with the model and with the generated tree incl. line:column of every keyword).
+  properly (C07); the argument decoding lemmas of C08 (double-quoted pieces); the lexer reads back what was
+  written (`C10_lexer_reads_back`: a text given as any sequence of lexemes — blank runs, block and line
+  comments, unquoted words, double- and single-quoted strings, braces, semicolons, '+' — with balanced braces
+  is turned into exactly the items of those lexemes at their byte positions, then EOF; a comment yields no
+  item, a blank run one separator item), hence from bytes to tree (`C10_text_to_tree`) and comments are
+  invisible (`C10_comment_invisible`).  Stream ytree compares the real parser's tree walk with the model and
+  the generated tree incl. line:column of every keyword on random trees × layouts × quotings.
 -/
 import YV.Proofs.YLex
 import YV.Proofs.YArg
 import YV.Proofs.YTree
+import YV.Proofs.YLexR
 namespace YV.C10
 open YV YV.Y
 
@@ -67,5 +70,43 @@ def asc (s : String) : Bytes := s.toList.map Char.toNat
 def visible (l : Option (List Item)) : Option (List (ITyp × Bytes)) :=
   l.map fun its => (its.filter (·.typ ≠ .sep)).map fun it => (it.typ, it.val)
 example : visible (lex true (asc "a /* ; { \" */ b; // c }\n")) = visible (lex true (asc "a b;\n")) := by decide
+
+/-- **the lexer reads back the lexemes** -/
+theorem C10_lexer_reads_back (L : List Lx) (hok : okL 0 L) : lex true (renderL L) = some (itemsFrom 0 L) :=
+  lex_render L hok
+
+/-- **from bytes to tree**: a text whose lexemes spell a source tree (with any trivia) parses to that tree -/
+theorem C10_text_to_tree (L : List Lx) (hok : okL 0 L) (src : Src) (hw : src.wf) (seps : List Item) (eof : Item)
+    (hseps : AllSep seps) (heof : eof.typ = .eof) (h : itemsFrom 0 L = src.items ++ (seps ++ [eof])) :
+    ∃ taken total, parse noChk true (renderL L) = .ok src.tree taken total :=
+  C10_parse_of_items (renderL L) src hw seps eof hseps heof (by rw [lex_render L hok, h])
+
+/-- what the parser can see of an item stream: kinds and values, not positions -/
+def shape (l : List Item) : List (ITyp × Bytes) := l.map fun it => (it.typ, it.val)
+
+theorem shape_itemsFrom (L : List Lx) : ∀ p q, shape (itemsFrom p L) = shape (itemsFrom q L) := by
+  induction L with
+  | nil => intro p q; rfl
+  | cons x r ih =>
+    intro p q
+    simp only [itemsFrom, shape, List.map_append] at ih ⊢
+    rw [ih (p + x.bytes.length) (q + x.bytes.length)]
+    congr 1
+    cases x <;> rfl
+
+/-- **comments are trivia**: a block or line comment anywhere in the text changes no item, only positions -/
+theorem C10_comment_invisible (L1 L2 : List Lx) (c : Lx) (hc : (∃ b, c = .blockC b) ∨ (∃ b, c = .lineC b)) (pos : Nat) :
+    shape (itemsFrom pos (L1 ++ c :: L2)) = shape (itemsFrom pos (L1 ++ L2)) := by
+  induction L1 generalizing pos with
+  | nil =>
+    rcases hc with ⟨b, rfl⟩ | ⟨b, rfl⟩ <;>
+      simp only [List.nil_append, itemsFrom, Lx.items] <;> exact shape_itemsFrom L2 _ _
+  | cons x r ih =>
+    simp only [List.cons_append, itemsFrom, shape, List.map_append] at ih ⊢
+    rw [ih]
+
+/-- non-vacuity: `m {/*x*/a;//c⏎}` is a well-formed lexeme sequence -/
+example : okL 0 [.word [109], .ws [32], .lb, .blockC [120], .word [97], .semi, .lineC [99], .rb] := by
+  simp [okL, Lx.ok, renderL, Lx.bytes, nextIs, isTerminator, isSep, noStarSlash]
 
 end YV.C10
